@@ -488,6 +488,7 @@ FORWARDING_EXCEPTIONS = {
 
 # parameters that are re-bound inside the function on the unchanged tree (every one confirmed by reading; what is assigned is decided by the rule named)
 REBINDING_EXCEPTIONS = {
+    ("rfc7517.pem:CryptographyBinding.as_bytes", "private"): "the (native key, flag) pair handed to dump_pem_key is decided per path, re-bindings substituted (C12 R12.7)",
     ("_keys:JWKRegistry.import_key", "key_type"): "defaults to the JWK's own kty when the caller named none (C11 R11.9 decides the dispatch)",
     ("jws:serialize_compact", "registry"): "None -> registry built from `algorithms` (C05 R05.13)",
     ("jws:validate_compact", "registry"): "None -> registry built from `algorithms` (C05 R05.13)",
